@@ -37,7 +37,7 @@ def check(gen_dir, out_dir, only=None):
             counters['permuted_files'] += permuted
             counters['files_with_filler'] += m['filler_bytes'] > 0
             want = [expected(r) for r in m['records']]
-            shp = open(os.path.join(gen_dir, name + '.shp'), 'rb').read()
+            shp = open(os.path.join(gen_dir, name + '.' + m.get('ext', 'shp')), 'rb').read()
             shx = open(os.path.join(gen_dir, name + '.shx'), 'rb').read()
             ctx = {'file': name, 'physical_order': perm[:24], 'filler_mode': m['filler_mode'], 'shp_hex': shp[:3000].hex(), 'shx_hex': shx[:1200].hex()}
             d = decoded.get(name)
